@@ -11,8 +11,11 @@ type FrozenSlice struct {
 	E   []Value
 }
 type FrozenMap struct {
-	Nil bool
-	E   []MapEntry
+	Nil  bool
+	E    []MapEntry
+	Open bool
+	Tag  string
+	Src  *Term
 }
 
 // freeze deep-copies v replacing heap references by their content.
@@ -49,9 +52,9 @@ func (e *Engine) freeze(s *State, v Value, t types.Type) Value {
 			return &FrozenMap{Nil: true}
 		}
 		mo := s.load(&Ptr{Obj: x.Obj}).(*MapObj)
-		fm := &FrozenMap{}
+		fm := &FrozenMap{Open: mo.Open, Tag: mo.Tag, Src: mo.Src}
 		for _, en := range mo.E {
-			fm.E = append(fm.E, MapEntry{en.K, e.freeze(s, en.V, nil)})
+			fm.E = append(fm.E, MapEntry{en.K, e.freeze(s, en.V, nil), en.Present})
 		}
 		return fm
 	case *IfaceV:
@@ -85,9 +88,9 @@ func (e *Engine) thaw(s *State, v Value) Value {
 		if x.Nil {
 			return &MapRef{Nil: true}
 		}
-		mo := &MapObj{}
+		mo := &MapObj{Open: x.Open, Tag: x.Tag, Src: x.Src}
 		for _, en := range x.E {
-			mo.E = append(mo.E, MapEntry{en.K, e.thaw(s, en.V)})
+			mo.E = append(mo.E, MapEntry{en.K, e.thaw(s, en.V), en.Present})
 		}
 		return &MapRef{Obj: s.alloc(mo)}
 	case *StructV:
@@ -243,7 +246,8 @@ func (e *Engine) freshOfTypeR(s *State, t types.Type, tag string, stack []types.
 			return one(&BytesV{T: v, NilT: TFalse}, Eq(Len(v), MkI(u.Len())))
 		}
 	case *types.Map:
-		throwf("freshOfType: arbitrary map %s", t)
+		// arbitrary content: an open map whose entries are materialised when first looked up
+		return one(&FrozenMap{Open: true, Tag: tag}, TTrue)
 	}
 	throwf("freshOfType %s", t)
 	return nil
